@@ -32,12 +32,13 @@ def gen_cases(tier, seed):
                 {"p": "out", "k": "d"}, F("out/x", 33, r.randrange(1, 1 << 30)), {"p": "out/od", "k": "d"}, F("out/od/y", 44, r.randrange(1, 1 << 30)),
                 {"p": "out/od/inner", "k": "d"}, F("out/od/inner/z", 55, r.randrange(1, 1 << 30)), {"p": "out/od/emptyd", "k": "d"}]
         classes = set()
+        into_dest = False
         nl = r.randint(1, 5)
         bad = False
         maxchain = 0
         for j in range(nl):
             cls = r.choice(["file-rel", "file-abs", "file-out", "dir-in", "dir-out", "dir-out-abs", "chain", "chain", "dangling", "cycle", "deep-link",
-                            "dir-otherfs", "file-otherfs", "chain-otherfs", "same-name", "same-name"])
+                            "dir-otherfs", "file-otherfs", "chain-otherfs", "same-name", "same-name", "into-dest"])
             nm = "src/L%d" % j if r.random() < 0.6 else "src/sub/L%d" % j
             up = "" if nm.count("/") == 1 else "../"
             if cls == "file-rel":
@@ -59,6 +60,9 @@ def gen_cases(tier, seed):
             elif cls == "chain-otherfs":
                 spec.append({"p": "out/hop%d" % j, "k": "l", "target": "@OTHER@/xd/xinner"})
                 spec.append({"p": nm, "k": "l", "target": up + "../out/hop%d" % j})
+            elif cls == "into-dest":
+                spec.append({"p": nm, "k": "l", "target": up + "../dst/shared"})
+                into_dest = True
             elif cls == "same-name":
                 # a link in a subdirectory named like a different file elsewhere (content must come from the link's own target)
                 if not any(e["p"] == "src/sub/a" for e in spec):
@@ -88,14 +92,17 @@ def gen_cases(tier, seed):
                     spec.append({"p": nm + "_c", "k": "l", "target": os.path.basename(nm)})
                 bad = True
             classes.add(cls)
-        top = r.random() < 0.25
+        top = r.random() < 0.25 and not into_dest
+        if into_dest:
+            spec += [{"p": "dst", "k": "d"}, {"p": "dst/shared", "k": "d"}, F("dst/shared/common.txt", 77, r.randrange(1, 1 << 30)),
+                     {"p": "dst/shared/inner", "k": "d"}, F("dst/shared/inner/deep.txt", 4097, r.randrange(1, 1 << 30))]
         topdst = None
         if top:
             spec.append({"p": "srclink", "k": "l", "target": r.choice(["src", "@ROOT@/src"])})
             classes.add("toplevel-link")
             topdst = r.choice(["absent", "existing-dir", "existing-dir"])
-        yield {"topdst": topdst, "top": top, "spec": spec, "driver": driver, "classes": sorted(classes), "bad": bad, "maxchain": maxchain, "fs": "ext4",
-               "args": ["--driver", driver, "-w", str(r.choice([1, 2, 4]))] + r.choice([[], [], ["--fsync"], ["--no-perms"], ["--gitignore"], ["--reflink", "never"], ["--no-progress"], ["--block-size", "4096"], ["-n"], ["--backup", "numbered"], ["--ownership"], ["-v"]])
+        yield {"into_dest": into_dest, "topdst": topdst, "top": top, "spec": spec, "driver": driver, "classes": sorted(classes), "bad": bad, "maxchain": maxchain, "fs": "ext4",
+               "args": ["--driver", driver, "-w", str(r.choice([0, 1, 2, 4]))] + r.choice([[], [], ["--fsync"], ["--no-perms"], ["--gitignore"], ["--reflink", "never"], ["--no-progress"], ["--block-size", "4096"], ["-n"], ["--backup", "numbered"], ["--ownership"], ["-v"]])
                        + ["-r", "-L", "src", "dst"]}
 
 
@@ -140,7 +147,7 @@ def run_case(case):
             res["inconc"].append("generator-model-disagree")
             return res
         args = list(case["args"])
-        dstroot = "dst"
+        dstroot = "dst/src" if case.get("into_dest") else "dst"
         if case.get("top"):
             args[-2] = "srclink"
             if case.get("topdst") == "existing-dir":
